@@ -12,6 +12,7 @@ import (
 	"go/parser"
 	"go/printer"
 	"go/token"
+	"go/types"
 	"os"
 	"path/filepath"
 	"reflect"
@@ -41,11 +42,19 @@ type Package struct {
 	Files      []string
 	chanFields map[string]bool // struct field / package var names declared with a channel type
 	topLevel   map[string]bool // package-level identifiers
+	info       *types.Info     // nil without a Typer
 }
 
 // Options control a rewrite.
 type Options struct {
 	LoopTicks bool // insert vsched.LoopTick() in loop bodies
+	// Light restricts the rewrite to the sync / sync/atomic / math/rand imports and
+	// time.Now/Since/Until (used for third-party packages that exchange real
+	// channels with uninstrumented code, e.g. context.Done()).
+	Light bool
+	// Typer, if set, supplies type information (ImportPath must be set too).
+	Typer      *Typer
+	ImportPath string
 }
 
 // RewriteDir instruments every non-test .go file of dir and writes the result
@@ -79,6 +88,9 @@ func RewriteDir(dir, outDir string, opt Options) (map[string]string, error) {
 	pkg := &Package{Dir: dir, Files: files, chanFields: map[string]bool{}, topLevel: map[string]bool{}}
 	for _, af := range asts {
 		pkg.collect(af)
+	}
+	if opt.Typer != nil {
+		pkg.info = opt.Typer.check(opt.ImportPath, fset, asts)
 	}
 	if err := os.MkdirAll(outDir, 0o755); err != nil {
 		return nil, err
@@ -179,6 +191,12 @@ func rewriteFile(fset *token.FileSet, f *ast.File, pkg *Package, opt Options) ([
 			}
 		case "math/rand/v2":
 			return nil, fmt.Errorf("math/rand/v2 is not modelled")
+		case "golang.org/x/time/rate":
+			// instrumented copy served from inside the repository module (see engine/build)
+			im.Path.Value = strconv.Quote(vschedPath + "/xrate")
+			if local == "" {
+				im.Name = ast.NewIdent("rate")
+			}
 		}
 	}
 	// keep only leading build-constraint comments
@@ -397,6 +415,12 @@ func (r *rewriter) isTimePkg(x ast.Expr) bool {
 // declared with a channel type, or a selector whose field was declared with a
 // channel type somewhere in the package, or a Ticker/Timer ".C".
 func (r *rewriter) isChanExpr(e ast.Expr) bool {
+	switch chanKind(r.pkg.info, e) {
+	case 1:
+		return true
+	case 0:
+		return false
+	}
 	switch e := e.(type) {
 	case *ast.Ident:
 		for i := len(r.chanLocal) - 1; i >= 0; i-- {
@@ -420,6 +444,24 @@ func (r *rewriter) noteChanLocal(name string) {
 }
 
 func (r *rewriter) expr(e ast.Expr) ast.Expr {
+	if r.opt.Light {
+		if x, ok := e.(*ast.SelectorExpr); ok && r.isTimePkg(x.X) {
+			switch x.Sel.Name {
+			case "Now", "Since", "Until":
+				return r.v(x.Sel.Name)
+			}
+			return x
+		}
+		if fl, ok := e.(*ast.FuncLit); ok {
+			r.funcScope(fl.Type, fl.Body)
+			return fl
+		}
+		if _, ok := e.(*ast.Ident); ok {
+			return e
+		}
+		r.children(e)
+		return e
+	}
 	switch x := e.(type) {
 	case *ast.FuncLit:
 		r.funcScope(x.Type, x.Body)
@@ -498,6 +540,14 @@ func isRecv(e ast.Expr) (*ast.UnaryExpr, bool) {
 }
 
 func (r *rewriter) stmt(s ast.Stmt) ast.Stmt {
+	if r.opt.Light {
+		if b, ok := s.(*ast.BlockStmt); ok {
+			r.block(b)
+			return b
+		}
+		r.children(s)
+		return s
+	}
 	switch x := s.(type) {
 	case *ast.DeclStmt:
 		if gd, ok := x.Decl.(*ast.GenDecl); ok {
@@ -573,6 +623,20 @@ func (r *rewriter) stmt(s ast.Stmt) ast.Stmt {
 		r.loopTick(x.Body)
 		return x
 	case *ast.RangeStmt:
+		if isMap(r.pkg.info, x.X) {
+			// Go randomises map iteration order; the instrumented build iterates in sorted key order
+			// so that an execution is a function of the scheduler's choices alone.
+			x.X = call(r.v("SortedMap"), r.expr(x.X))
+			if x.Key != nil {
+				x.Key = r.expr(x.Key)
+			}
+			if x.Value != nil {
+				x.Value = r.expr(x.Value)
+			}
+			r.block(x.Body)
+			r.loopTick(x.Body)
+			return x
+		}
 		if r.isChanExpr(x.X) {
 			x.X = method(r.expr(x.X), "Iter")
 			if x.Key != nil {
@@ -716,6 +780,10 @@ func (r *rewriter) selectStmt(s *ast.SelectStmt, label *ast.Ident) ast.Stmt {
 	def := "false"
 	if hasDefault {
 		def = "true"
+	} else {
+		// keeps the statement terminating when every clause is (vsched.Select returns one of the indices)
+		sw.Body.List = append(sw.Body.List, &ast.CaseClause{Body: []ast.Stmt{&ast.ExprStmt{X: call(ast.NewIdent("panic"),
+			&ast.BasicLit{Kind: token.STRING, Value: strconv.Quote("vsched: select returned no clause")})}}})
 	}
 	args := append([]ast.Expr{ast.NewIdent(def)}, cases...)
 	sw.Tag = call(r.v("Select"), args...)
